@@ -6,7 +6,7 @@ ID = "C15"
 AREA = "adapt"
 COQ_TARGETS = ["theories/Props/C15.vo"]
 REQUIRES = ["From Coq Require Import List NArith ZArith Bool.", "From Coq.Strings Require Import Byte.",
-            "From MS Require Import Base.Bytes Base.Outcome Base.Cursor Base.Adapters Base.AdaptersSpec Base.Async Props.C15.",
+            "From MS Require Import Base.Bytes Base.Outcome Base.Cursor Base.Adapters Base.AdaptersSpec Base.AdaptersProofsVcur Base.Async Props.C15.",
             "Import ListNotations.", "Open Scope N_scope."]
 COQCHK = ["MS.Props.C15"]
 THEOREMS = [
@@ -14,6 +14,7 @@ THEOREMS = [
       seeker_refines max_seek S abs Inv -> refines (seek_adapter S) abs Inv"""),
     ("C15_cursor_refines", """forall max_seek : N,
       refines (cursor_reader max_seek) (fun c => c) (fun c => wf_cur c /\\ clen c <= max_seek)"""),
+    ("C15_vcursor_refines", """forall max_seek : N, seeker_refines max_seek (vcursor_seeker max_seek) vabs (vinv max_seek)"""),
     ("C15_bufreader_refines", """forall (cap : N) (R : reader) (abs : rst R -> cur) (Inv : rst R -> Prop),
       1 <= cap -> refines R abs Inv -> refines (std_buf cap R) (buf_abs R abs) (buf_inv R abs Inv)"""),
     ("C15_fut_bufreader_refines", """forall (cap : N) (R : reader) (abs : rst R -> cur) (Inv : rst R -> Prop),
@@ -55,7 +56,9 @@ RULE = ("hist cases: (a) corpus; (b) exhaustive: every operation sequence of len
         "s<c+1> p l with b = the amount buffered after r1, for every capacity 1..9 and every stream of 0..8 bytes; (c) seeded random "
         "histories of 60..200 operations on 4 KiB streams over every stack in the tables (sync: Cursor, SeekSkipAdapter, BufReader, &mut, "
         "Box, Box<dyn>; async: futures Cursor/BufReader, Pin, AsyncInputAdapter, Pending-capable bases with an all-Ready schedule), "
-        "capacities 1..9,16,32,64,4096,8192; (d) boundary amounts 2^63-1, 2^63, 2^64-1-pos, 2^64-pos, 2^64-1 (these leave the stream: model "
+        "capacities 1..9,16,32,64,4096,8192; (c') skips of more than i64::MAX bytes that STAY WITHIN the stream, on a sparse virtual Read+Seek stream of up to 2^64-1 bytes "
+        "(real bytes where the reads land) under 15 sync and async stacks, from positions 0 and > 0, with and without buffered bytes: judged by the "
+        "ideal cursor like every other history; (d) boundary amounts 2^63-1, 2^63, 2^64-1-pos, 2^64-pos, 2^64-1 (these leave the stream: model "
         "vs implementation only); (e) out-of-stream read_exact / skip followed by queries. thorough adds Rust-side exhaustive sweeps "
         "(histsweep: all sequences of length <= 5 (BufReader over Cursor, std and futures) / <= 4 (four more stacks) over r/x/s with amounts {0,1,2,c,c+1,b,b+1} and p, l checked against an ideal cursor inside the harness). "
         "A case is non-trivial when the history contains a skip or read_exact followed by a later position/length query or read; "
@@ -164,6 +167,18 @@ def gen(run):
             caps = [rng.randint(1, 9) for _ in range(ac.ncaps(st))]
             yield line(st, caps, d, random_ops(rng, n, caps, rng.randint(3, 25))), "random-small"
 
+    # (c') skips of more than i64::MAX bytes that stay within a sparse virtual stream
+    H = 2 ** 63
+    big_n = 2 ** 64 - 1
+    ex = [(0, bytes(range(1, 25))), (H - 4, bytes(range(101, 141))), (big_n - 20, bytes(range(201, 221)))]
+    for st in VCUR_STACKS:
+        caps = [3, 2, 2][:ac.ncaps(st)]
+        for pre in ("", "x1;", "x3;", "s4;", "x2;s1;", "r1;"):
+            for a in (H, H + 1, H + 5, big_n - 30):
+                yield "hist %s %s %s %s" % (st, ",".join(map(str, caps)) or "-", ac.vspec(big_n, ex),
+                                            pre + "s%d;p;x2;p;l;r3;p" % a), "huge-skip-within"
+    yield from huge_histories(rng, 300 if run.tier == "quick" else 6000)
+
     # (d) boundary amounts beyond i64::MAX, (e) leaving the stream
     big = [2 ** 63 - 1, 2 ** 63, 2 ** 64 - 1, 2 ** 64 - 2, 2 ** 64 - 4, 2 ** 64 - 5, 2 ** 63 + 1]
     bst = ["cursor", "seek(cursor)", "buf(cursor)", "buf(seek(cursor))", "fcursor", "seek(fcursor)", "fbuf(fcursor)", "fbuf(seek(pc))",
@@ -178,6 +193,61 @@ def gen(run):
         for ops in ("x5;p;l;r1;x1", "r1;x4;p;l", "s5;p;l;r1;x1;p", "r1;s9;p;r1;l;p;s0;p", "x0;s0;r0;p;l", "r9;r9;p;x1;p",
                     "s4;p;r1;x1;p;s1;p;l"):
             yield line(st, caps, data_of(4), ops.split(";")), "out-of-stream"
+
+
+VCUR_STACKS = ["vcur", "seek(vcur)", "buf(vcur)", "buf(seek(vcur))", "buf(buf(seek(vcur)))", "box(buf(vcur))", "mut(seek(vcur))",
+               "dynbox(buf(seek(vcur)))", "buf(mut(vcur))", "seek(avcur)", "fbuf(seek(avcur))", "pin(fbuf(seek(avcur)))",
+               "fbuf(fbuf(seek(avcur)))", "fbuf(ain(buf(seek(vcur))))", "fbuf(ain(vcur))"]
+
+
+def huge_histories(rng, count):
+    """histories on a sparse virtual stream of up to 2^64-1 bytes whose skips exceed i64::MAX and STAY WITHIN the stream:
+    real bytes are placed where the reads will land"""
+    H = 2 ** 63
+    for _ in range(count):
+        n = rng.choice([2 ** 64 - 1, 2 ** 64 - 1, 2 ** 64 - 2, 2 ** 63 + 2 ** 62, 2 ** 63 + 40])
+        st = rng.choice(VCUR_STACKS)
+        caps = [rng.randint(1, 9) for _ in range(ac.ncaps(st))]
+        ops, exts, pos = [], [], 0
+        # optional small prefix so that the cursor is not at 0 (and a BufReader holds buffered bytes)
+        for _ in range(rng.choice([0, 1, 1, 2, 3])):
+            k = rng.random()
+            if k < 0.5:
+                a = rng.randint(0, 6); ops.append("r%d" % a)      # a short read moves the ideal cursor by what it returns: keep exact with x
+                ops[-1] = "x%d" % a; pos += a
+            elif k < 0.8:
+                a = rng.randint(0, 12); ops.append("s%d" % a); pos += a
+            else:
+                ops.append(rng.choice(["p", "l"]))
+        # the huge skip, inside the stream
+        room = n - pos
+        if room <= H:
+            continue
+        a = rng.choice([H, H + 1, H + 5, room, room - 1, room - 7, rng.randint(H, room)])
+        a = max(H, min(a, room))
+        ops.append("s%d" % a); pos += a
+        ops.append("p")
+        for _ in range(rng.randint(1, 4)):
+            k = rng.random()
+            left = n - pos
+            if k < 0.4:
+                a = rng.randint(0, 5); ops.append("r%d" % a); ops.append("p")
+                pos = None
+                break
+            elif k < 0.7:
+                a = min(rng.randint(0, 5), left); ops.append("x%d" % a); pos += a
+            elif k < 0.85:
+                a = min(rng.choice([0, 1, 3, 2 ** 62, left]), left); ops.append("s%d" % a); pos += a
+            else:
+                ops.append(rng.choice(["p", "l"]))
+        ops.append("l")
+        # real bytes at the start and around where the huge skip lands
+        land = sum(int(o[1:]) for o in ops[:ops.index("p", next(i for i, o in enumerate(ops) if o[0] == "s" and int(o[1:]) >= H))] if o[0] in "sx")
+        e0 = bytes(rng.randrange(1, 256) for _ in range(24))
+        lo = max(24, land - 6)
+        e1 = bytes(rng.randrange(1, 256) for _ in range(max(0, min(40, n - lo))))
+        exts = [(0, e0)] + ([(lo, e1)] if e1 else [])
+        yield "hist %s %s %s %s" % (st, ",".join(map(str, caps)) or "-", ac.vspec(n, exts), ";".join(ops)), "huge-skip-within"
 
 
 def random_ops(rng, n, caps, count):
@@ -272,7 +342,7 @@ def search(run, disagreements):
 
 def coq_bool(ln, model_out):
     t = ln.split()
-    if t[0] != "hist" or len(t[3]) > 40 or model_out in ("panic", "unknown-stack", "model-out-of-fuel"):
+    if t[0] != "hist" or len(t[3]) > 40 or t[3].startswith("V") or model_out in ("panic", "unknown-stack", "model-out-of-fuel"):
         return None
     data = bytes.fromhex(t[3]) if t[3] != "-" else b""
     caps = [int(x) for x in t[2].split(",")] if t[2] != "-" else []
